@@ -113,6 +113,10 @@ def read_dicts(data, enc, bc, blocked):
     return evs
 
 
+COUNTS = (128, 256, 100, 64, 127, 129)
+PCOUNTS = (128, 256, 1000, 512, 100, 1024, 384, 10)
+
+
 def _drive_ipm(args):
     seed, wd, cases = args
     out = []
@@ -120,9 +124,11 @@ def _drive_ipm(args):
     for (cid, tool, a, b, fi, fo) in cases:
         r = drv.rng(seed, 'c19', cid)
         n = r.choice((1, 2, 3, 6))
+        if cid >= 5000:
+            n = COUNTS[(cid - 5000) % len(COUNTS)]         # record counts at round numbers (batch sizes of a converter)
         msgs = []
         for j in range(n):
-            m = isoc.gen_message(r, bc, isoc.SAFE, maxbits=r.choice((3, 8, 16)))
+            m = isoc.gen_message(r, bc, isoc.SAFE, maxbits=r.choice((3, 8, 16)) if n < 50 else 3)
             if tool == 'mideu.convert':
                 # mideu re-packs PDS canonically: only library-packed PDS (PDSxxxx keys) is in the statement's
                 # "written by the library"; hand-made carrier strings are a don't-care for this tool
@@ -218,8 +224,8 @@ def _drive_param(args):
     for (cid, tool, a, b, fi, fo) in cases:
         r = drv.rng(seed, 'c19p', cid)
         recs = []
-        for j in range(r.choice((1, 3, 8, 30))):
-            n = r.choice((1, 20, 250, 1008, 1012, r.randrange(1, 600)))
+        for j in range(r.choice((1, 3, 8, 30)) if cid < 5000 else PCOUNTS[(cid - 5000) % len(PCOUNTS)]):
+            n = r.choice((1, 20, 250, 1008, 1012, r.randrange(1, 600))) if cid < 5000 else r.choice((1, 20, 57))
             if cid % 3 == 1 and j % 3 == 0:
                 # fixed-width text padded with blanks / low values: runs long enough to fill whole 1014 blocks
                 n = r.choice((2023, 2100, 3040, 1012, 2024))
@@ -293,6 +299,13 @@ def run(rep, wd, tier, seed):
                 cases.append((cid, 'mideu.convert', a, b, f, f))
                 pcases.append((cid, 'paramconv', a, b, f, f))
                 cid += 1
+    # files whose record count is a round number (what a converter that works in batches cares about)
+    for i in range(len(COUNTS) if tier == 'quick' else 4 * len(COUNTS)):
+        a, b = ENCS[i % len(ENCS)], ENCS[(i // 2 + 1) % len(ENCS)]
+        cases.append((5000 + i, 'mci_ipm_encode', a, b, fmts[i % 2], fmts[(i // 2) % 2]))
+    for i in range(len(PCOUNTS) if tier == 'quick' else 3 * len(PCOUNTS)):
+        a, b = ENCS[i % len(ENCS)], ENCS[(i // 3 + 1) % len(ENCS)]
+        pcases.append((5000 + i, 'mci_ipm_param_encode', a, b, fmts[i % 2], fmts[(i // 2) % 2]))
     from .isocheck import _pool
     outs = _pool(_drive_ipm, [(seed, wd, p) for p in core.split(cases, core.NCPU)])
     results = [x for o in outs for x in o]
